@@ -190,9 +190,10 @@ pub fn run(sc: &Sc, bounds: Bounds, prefix: &[Point]) -> Result<Exec<Obs>, Strin
 	});
 	fakewatcher::install();
 	let sc2 = sc.clone();
+	let default_schedule = matches!(bounds.mode, dex::explore::Mode::Bounded { k: 0 }) && bounds.policy == Policy::Fifo;
 	let res = rt::run_one(bounds, prefix, true, move || async move {
 		rt::set_select_filter(Some(Box::new(select_matters)));
-		body(&sc2, args).await
+		body(&sc2, args, default_schedule).await
 	});
 	simchild::uninstall();
 	fakewatcher::uninstall();
@@ -205,7 +206,7 @@ pub fn run(sc: &Sc, bounds: Bounds, prefix: &[Point]) -> Result<Exec<Obs>, Strin
 	}
 }
 
-async fn body(sc: &Sc, args: watchexec_cli::args::Args) -> Result<Obs, String> {
+async fn body(sc: &Sc, args: watchexec_cli::args::Args, default_schedule: bool) -> Result<Obs, String> {
 	let state = watchexec_cli::verif::new_state(&args).await.map_err(|e| format!("state: {e}"))?;
 	let config = cli_config(&args, &state)?;
 	let wx = Watchexec::with_config(config).map_err(|e| format!("with_config: {e}"))?;
@@ -293,7 +294,7 @@ async fn body(sc: &Sc, args: watchexec_cli::args::Args) -> Result<Obs, String> {
 	if livelock {
 		push("C05/livelock".into(), "tasks kept waking each other for 20000 polls".into());
 	} else {
-		at_end(sc, main.is_finished());
+		at_end(sc, main.is_finished(), default_schedule);
 	}
 	main.abort();
 	drop(wx);
@@ -348,7 +349,7 @@ fn at_quiescence(sc: &Sc, sent: usize) {
 	}
 }
 
-fn at_end(sc: &Sc, main_finished: bool) {
+fn at_end(sc: &Sc, main_finished: bool, default_schedule: bool) {
 	let f = facts();
 	if main_finished {
 		push("C05/main-task-ended".into(), "watchexec ended although nothing asked it to quit".into());
@@ -413,8 +414,10 @@ fn at_end(sc: &Sc, main_finished: bool) {
 			}
 			// a change that finds the command running (and still running at the next quiescent
 			// instant) must have produced a signal in between
+			// (timed clause: only on the default schedule, where time advances at quiescent
+			// instants only — under a PREEMPT deviation a --delay-run sleep may start late)
 			let quiescents: Vec<usize> = f.log.iter().enumerate().filter(|(_, r)| matches!(r.ev, Ev::User { tag: "quiescent" | "drain", .. })).map(|(i, _)| i).collect();
-			for c in &f.changes {
+			for c in f.changes.iter().filter(|_| default_schedule) {
 				let Some(child) = running_at(&f.log, *c) else { continue };
 				// the action that handled this change, and the first quiescent instant by which
 				// its query of the job (after the optional --delay-run) has certainly run
